@@ -48,9 +48,9 @@ func runC12(c *Ctx) {
 	defer wd.Stop()
 	initials := []int{1, 511, 512, 513, 4096, 1 << 20}
 	dists := []string{"tiny", "boundary", "heavy", "mixed"}
-	n := c.N(36, 400)
+	n := c.N(36, 240)
 	if bulk {
-		n = c.N(24, 300)
+		n = c.N(24, 160)
 	}
 	for i := 0; i < n; i++ {
 		if i%c.NParts != c.Part {
